@@ -81,20 +81,24 @@ def generate(ctx: Ctx, rep: Report) -> list:
     jobs = []
     if ctx.quick:
         jobs.append(("exh", "Simulator.tla", "Simulator_depth2.cfg", {},
-                     "all call histories of depth 2 over the 33-operation menu; 7 invariants at every state"))
+                     "all call histories of depth 2 over the 34-operation menu; 7 invariants at every state"))
         jobs.append(("exh3s", "Simulator.tla", "Simulator_depth3s.cfg", {},
-                     "all call histories of depth 3 over the reduced 15-operation menu; 7 invariants at every state"))
+                     "all call histories of depth 3 over the reduced 16-operation menu; 7 invariants at every state"))
         jobs.append(("deep", "Simulator.tla", "Simulator_deep.cfg",
                      dict(simulate="num=3", depth=9, seed=ctx.seed, workers=8),
                      "seeded -simulate behaviours of depth 8 (and the siblings of their last call)"))
     else:
         jobs.append(("exh", "Simulator.tla", "Simulator_depth3.cfg", {},
-                     "all call histories of depth 3 over the 33-operation menu; 7 invariants at every state"))
+                     "all call histories of depth 3 over the 34-operation menu; 7 invariants at every state"))
         jobs.append(("exh4", "Simulator.tla", "Simulator_depth4.cfg", {},
-                     "all call histories of depth 4 over the reduced 15-operation menu; 7 invariants at every state"))
+                     "all call histories of depth 4 over the reduced 16-operation menu; 7 invariants at every state"))
         jobs.append(("deep", "Simulator.tla", "Simulator_deep.cfg",
                      dict(simulate="num=40", depth=9, seed=ctx.seed, workers=8),
                      "seeded -simulate behaviours of depth 8 (and the siblings of their last call)"))
+
+    jobs.append(("warm", "Simulator.tla", "Simulator_warm.cfg", {},
+                 "all call histories of depth 2 over the full menu continuing a twice-overridden simulator "
+                 "(simulate, override, simulate, override; time reached an odd number of ticks)"))
 
     def go(job):
         tag, mod, cfg, kw, _ = job
@@ -170,7 +174,10 @@ def rendering_notes(rep: Report, outs: list) -> None:
     tot = {k: sum(st.get(k, 0) for _, st in outs) for k in keys}
     rep.notes["protocol_tables_written"] = tot
     fam = {"histories_with_time_dependent_inflow": sum(st.get("ramp", 0) for _, st in outs),
-           "histories_with_assignment_defined_initial_value": sum(st.get("ia", 0) for _, st in outs)}
+           "histories_with_assignment_defined_initial_value": sum(st.get("ia", 0) for _, st in outs),
+           "histories_with_use_jacobian": sum(st.get("jac", 0) for _, st in outs),
+           "histories_with_mirror_variable(two overrides in a row)": sum(st.get("mirror", 0) for _, st in outs),
+           "integer_typed_time_grids": sum(st.get("integer_typed_grids", 0) for _, st in outs)}
     rep.notes["model_family_members"] = fam
     rep.notes["start_state_of_a_simulator_that_has_not_run(assignment-defined, parameters updated first)"] = {
         "as_at_construction": sum(st.get("start_state_as_at_construction", 0) for _, st in outs),
